@@ -35,3 +35,14 @@ for d in sorted(glob.glob(os.path.join(ROOT, 'seeded', '*'))):
             det.append('%s (%s%s)' % (pid, how, ', native replay' if ck.get('replayed') else ', no-failing-input-found'))
     print('| %s | %s | %s | %s | %s |' % (os.path.basename(d), m.get('property'), (m.get('needs') or '')[:110].replace('|', '/').replace('\n', ' '), ', '.join(det) or '**missed**',
           '; '.join((ck.get('first') or [''])[0][:90] for ck in r.get('checks', {}).values() if ck.get('detected'))[:140].replace('|', '/')))
+print()
+print('| refactoring | property | what was restructured | checks run | alarms | undecided (DEGRADED) obligations |')
+print('|---|---|---|---|---|---|')
+for d in sorted(glob.glob(os.path.join(ROOT, 'refactors', '*'))):
+    rf, mf = os.path.join(d, 'result.json'), os.path.join(d, 'meta.json')
+    if not os.path.exists(rf): continue
+    r, m = json.load(open(rf)), json.load(open(mf))
+    cks = r.get('checks', {})
+    alarms = [pid for pid, ck in cks.items() if ck.get('exit') not in (0,) or ck.get('violations')]
+    print('| %s | %s | %s | %s | %s | %s |' % (os.path.basename(d), m.get('property'), (m.get('summary') or '')[:140].replace('|', '/').replace('\n', ' '),
+          ', '.join(cks), ', '.join(alarms) or 'none', ', '.join('%s %d' % (pid, ck.get('degraded', 0)) for pid, ck in cks.items() if ck.get('degraded')) or '-'))
